@@ -21,6 +21,7 @@ checks = [
  dag("C04", "deterministic simulation: actions on multi-head replicas reached by simulated sync; query view vs action view vs advertised hello head", "For every action on a committed multi-head graph: fact-cache dump == perspective the action sees == model; hello_head == address of the collapse merge; no effects from the collapse."),
  dag("C05", "deterministic simulation: finalize commands placed anywhere by seeded generation; model decides concurrency of finalize commands from the global DAG", "ParallelFinalize must be returned exactly when the model finds two causally unordered finalize commands in the braid; state unchanged on failure."),
  dag("C06", "deterministic simulation with adversarial ingest: write-then-fail commands at every batch position, transaction kept in use afterwards; effects transcript checked", "Rejected commands leave no trace, earlier accepted commands still commit, children of rejected commands get NoSuchParent, effects rolled back."),
+ dag("C07", "deterministic simulation: actions (multi-command, failing at every position, on single- and multi-head replicas reached by simulated sync) against the model; head set, fact dump and effect transcript compared before/after", "Success: exactly one new head above every previous head, all published commands present in order, facts and committed effects equal the model. Failure: heads, facts and commit stamp unchanged, no effect committed, nothing dangling. Runtime part (client.rs, transaction.rs) with the Rust DagPolicy; the VmPolicy publish loop is covered by the vmsim stage when present."),
  dag("C08", "deterministic simulation: several open transactions and actions interleaved on one replica by a seeded scheduler; shadow commit counter decides ConcurrentTransaction", "Commit must fail with ConcurrentTransaction iff another commit happened since the transaction first read the heads; committed set is monotone; failed commits change nothing."),
  dag("C09", "deterministic simulation: head set compared with the frontier of the shadow committed set after every commit/action, under duplicates, deep parents, merges of non-tips, flushes", "Heads strictly ascending by id and equal to the model frontier; init reachable."),
  dag("C10", "deterministic simulation with adversarial first commands and init-shaped commands at every batch position", "Graph creation only from a parentless first command with the graph id and a policy; foreign init rejected; own init re-delivery is a no-op."),
